@@ -453,4 +453,57 @@ def specArgmax [Mul α] (wt : α) (tvals : List α) (ix : Nat) : Bool :=
   | some t => tvals.all (fun u => !(decide (wt * t < wt * u)))
 end mo
 
+/-! ### usefulness criterion: the criterion of a candidate cross (round 5)
+
+  prob/UsefulnessCriterionSelectionProblem.py `_calc_uc`, one trait:
+      epgc  = numpy.array(vmat_obj.epgc)                       # expected parental genome contributions
+      pmean = epgc.dot(bvmat[cconfig,:])                       # for every row `cconfig` of the cross map
+      uc[i] = pmean + selection_intensity * sqrt(max(pvar, 0))
+  The second summand (`spread`; it involves a square root and the variance matrix, which is not C07's) is an
+  oracle input of the model; the progeny mean is modelled exactly. -/
+section uc
+
+/-- the cross types for which pybrops has an additive genetic variance matrix class -/
+inductive CrossType | twoWay | dihybrid | threeWay | fourWay
+  deriving DecidableEq, Repr
+
+/-- `Dense{TwoWay,Dihybrid,ThreeWay,FourWay}DHAdditiveGeneticVarianceMatrix.epgc`, in quarters of the genome:
+    (1/2, 1/2), (1/2, 1/2), (1/2, 1/4, 1/4) [recurrent, female, male], (1/4, 1/4, 1/4, 1/4) -/
+def CrossType.quarters : CrossType → List Nat
+  | .twoWay => [2, 2]
+  | .dihybrid => [2, 2]
+  | .threeWay => [2, 1, 1]
+  | .fourWay => [1, 1, 1, 1]
+
+/-- number of parents of the cross type -/
+def CrossType.nparent (c : CrossType) : Nat := c.quarters.length
+
+def CrossType.ofString : String → Option CrossType
+  | "two" => some .twoWay
+  | "dihybrid" => some .dihybrid
+  | "three" => some .threeWay
+  | "four" => some .fourWay
+  | _ => none
+
+/-- the `epgc` tuple of the cross type as scalars -/
+def CrossType.epgc {α : Type} [NatCast α] [Div α] (c : CrossType) : List α :=
+  c.quarters.map (fun (q : Nat) => (q : α) / ((4 : Nat) : α))
+
+variable {α : Type} [Add α] [Mul α] [Zero α]
+
+/-- `epgc.dot(bvmat[cconfig])` for one trait: the parental breeding values weighted by the expected parental
+    genome contributions, position by position of the cross-map row -/
+def progenyMean (epgc bv : List α) (cross : List Nat) : α :=
+  (List.zipWith (fun w i => w * bv.getD i 0) epgc cross).sum
+
+/-- the usefulness criterion of every row of the cross map (`spread[i] = intensity * sqrt(max(pvar_i, 0))`) -/
+def ucTable (epgc bv : List α) (xmap : List (List Nat)) (spread : List α) : List α :=
+  List.zipWith (fun c s => progenyMean epgc bv c + s) xmap spread
+
+/-- the mid-parent value of a cross (what the progeny mean is when all parents contribute equally) -/
+def midParent [Div α] [NatCast α] (bv : List α) (cross : List Nat) : α :=
+  (cross.map (fun i => bv.getD i 0)).sum / (cross.length : α)
+
+end uc
+
 end SelProt
